@@ -18,6 +18,7 @@ import (
 
 	"tunnox-core/internal/cloud/configs"
 	"tunnox-core/internal/cloud/models"
+	coreerrors "tunnox-core/internal/core/errors"
 	"tunnox-core/internal/packet"
 	"tunnox-core/internal/protocol/session"
 	"tunnox-core/internal/stream"
@@ -112,7 +113,9 @@ func (e *c02lEnd) reader() {
 func c02lLifecycleRunning() int {
 	n := 0
 	for _, g := range vk.Goroutines() {
-		if strings.Contains(g.Stack, ").runBridgeLifecycle") {
+		// a goroutine that was created by `go s.runBridgeLifecycle(...)` but has not been
+		// scheduled yet shows only its wrapper (startSourceBridge.gowrapN) in the dump
+		if strings.Contains(g.Stack, ").runBridgeLifecycle") || strings.Contains(g.Stack, ").startSourceBridge.") {
 			n++
 		}
 	}
@@ -951,13 +954,17 @@ func c02lNoTarget(t *testing.T, run *vk.Run, shared *miniNode, ssrc, stgt *miniC
 			// a late target
 			tc := node.MustConnect("")
 			if ok, _ := tc.Login(tgt.ClientID, tgt.Secret, "tunnel"); ok {
-				ack, _ := c02lOpen(tc, mapping.ID, tid, mapping.SecretKey)
+				ack, herr := c02lOpen(tc, mapping.ID, tid, mapping.SecretKey)
 				if !c02lAwaitLifecycleEnd() {
 					run.Count("watchdog", 1)
 					return undecided + 1
 				}
-				accepted := ack != nil && ack.Success
-				det2 := map[string]any{"case": cs, "tunnel_id": tid, "late_target_ack_success": accepted, "late_target_transport_closed_by_server": tc.sc.IsClosed(),
+				// the handler reports "attached, switch to stream mode" through an error of code
+				// TunnelModeSwitch; any other error means the open failed (the transport's read
+				// loop then drops the connection)
+				attached := herr != nil && coreerrors.IsCode(herr, coreerrors.CodeTunnelModeSwitch)
+				accepted := ack != nil && ack.Success && attached
+				det2 := map[string]any{"case": cs, "tunnel_id": tid, "late_target_ack_success": ack != nil && ack.Success, "handler_result": fmt.Sprint(herr), "late_target_attached": attached, "late_target_transport_closed_by_server": tc.sc.IsClosed(),
 					"bridge_found_for_late_target": node.SM.GetTunnelBridgeByConnectionID(tc.ConnID) != nil || node.SM.GetTunnelBridgeByMappingID(mapping.ID, 0) != nil}
 				switch {
 				case !accepted:
